@@ -161,16 +161,28 @@ func VerifyFunc(pr *Prog, eff *Effects, fi *FuncInfo, opts VerifyOpts) (rep *Fun
 	fin := x.merge(o.normal, o.ret)
 	pan := o.pan
 	// deferred calls run on both exits
+	runDefer := func(s *State, i int) *State {
+		if s == nil || s.dead() {
+			return s
+		}
+		flag, ok := s.env[fmt.Sprintf("defer$%d$%d", fr.id, i)]
+		if !ok {
+			return s // never registered on this path
+		}
+		reg := s.clone()
+		reg.guard(flag)
+		od := &Outcomes{}
+		x.evalCall(reg, fr, od, fr.defers[i])
+		if flag.IsTrue() {
+			return reg
+		}
+		unreg := s
+		unreg.guard(Not(flag))
+		return x.merge(reg, unreg)
+	}
 	for i := len(fr.defers) - 1; i >= 0; i-- {
-		if fin != nil {
-			od := &Outcomes{}
-			x.evalCall(fin, fr, od, fr.defers[i])
-			pan = x.merge(pan, od.pan)
-		}
-		if pan != nil {
-			od := &Outcomes{}
-			x.evalCall(pan, fr, od, fr.defers[i])
-		}
+		fin = runDefer(fin, i)
+		pan = runDefer(pan, i)
 	}
 	if spec != nil {
 		if fin != nil && !fin.dead() {
